@@ -200,6 +200,8 @@ def gen_cases(ctx):
             continue
         for ans in (va if full else [va[ci % len(va)], va[(ci + 3) % len(va)]]):
             cases.append({"supported": sup, "preferred": pref, "answer": ans, "noise": [], "tracked": False, "entry": "wrapper"})
+            # ... and the compatibility entry point of the same name in chuk_mcp.mcp_client (old API): same contract
+            cases.append({"supported": sup, "preferred": pref, "answer": ans, "noise": [], "tracked": False, "entry": "shim"})
     # degenerate probes: the empty string as preferred / member (outside the property's universe; correspondence only)
     for sup, pref, ans in ((["2025-06-18", ""], "", {"kind": "version", "value": ""}),
                            (["", "2025-06-18"], "", {"kind": "version", "value": "2025-06-18"}),
@@ -217,7 +219,7 @@ def run_impl(cases):
     async def main():
         out = []
         for c in cases:
-            out.append(await (N.run_wrapper_case(c) if c.get("entry") == "wrapper" else N.run_client_case(c)))
+            out.append(await (N.run_wrapper_case(c) if c.get("entry") in ("wrapper", "shim") else N.run_client_case(c)))
         return out
     return vrun(main)
 
@@ -243,7 +245,7 @@ def judge(ctx, cases, impl, model, spec, library):
         ctx.count("preferred:" + pref_class(case, library))
         ctx.count("outcome:" + c["outcome"][0])
         ctx.count("noise:" + str(len(case["noise"])))
-        ctx.count("variant:" + ("wrapper-entry-point" if case.get("entry") == "wrapper" else "tracked" if case["tracked"] else "plain"))
+        ctx.count("variant:" + ("wrapper-entry-point" if case.get("entry") == "wrapper" else "compat-shim-entry-point" if case.get("entry") == "shim" else "tracked" if case["tracked"] else "plain"))
         if mres is not None:
             m = N.canon_model(mres[i], case["tracked"])
             if m != c:
